@@ -585,3 +585,24 @@ Proof.
   - constructor; [cbn beta iota; intros y; lra|constructor].
   - intros y. pose proof (Rle_0_sqr (y - 1)) as Hq. unfold Rsqr in Hq. lra.
 Qed.
+
+(* ------------------------------------------------------------------ F. bound-constrained front end: diagonal scaling is transparent for KKT
+   BoundConstrainedObjective solves in xBar = d x (d = scaling > 0, invScaling = 1/d): gradient component g/d, bound xBar >= 0,
+   multiplier lam; get_multipliers() returns d*lam.  Per constrained dof, KKT in scaled variables <=> KKT in original ones. *)
+Theorem bound_scaling_KKT_transparent d g lam x : 0 < d ->
+  (g / d - lam = 0 /\ 0 <= lam /\ 0 <= d * x /\ lam * (d * x) = 0)
+  <-> (g - d * lam = 0 /\ 0 <= d * lam /\ 0 <= x /\ (d * lam) * x = 0).
+Proof.
+  intros Hd.
+  assert (E1 : g / d - lam = (g - d * lam) / d) by (field; lra).
+  assert (Hinv : 0 < / d) by (apply Rinv_0_lt_compat; exact Hd).
+  split.
+  - intros (H1 & H2 & H3 & H4). rewrite E1 in H1.
+    assert (G : g - d * lam = 0).
+    { apply Rmult_eq_compat_r with (r := d) in H1. unfold Rdiv in H1.
+      rewrite Rmult_assoc, Rinv_l, Rmult_1_r, Rmult_0_l in H1 by lra. exact H1. }
+    split; [exact G|]. split; [apply Rmult_le_pos; lra|]. split; [|lra].
+    apply Rmult_le_reg_l with d; [exact Hd|]. lra.
+  - intros (H1 & H2 & H3 & H4). rewrite E1, H1. split; [unfold Rdiv; ring|].
+    split; [apply Rmult_le_reg_l with d; [exact Hd|]; lra|]. split; [apply Rmult_le_pos; lra|]. lra.
+Qed.
